@@ -1,7 +1,8 @@
 #!/bin/bash
-# usage: tools/confirm_seed.sh <prop> <k>   (reads /tmp/seed/<prop>/out/<k>/)
-# Confirms a seeded change independently: demo passes on HEAD, fails with the patch, repo suite passes with the patch;
-# then runs the property's quick check (and thorough if quick is silent) against it and stores everything in /verif/seeded/<prop>-<k>/
+# usage: tools/confirm_seed.sh <prop> <k> "<extra checks>"      (reads /tmp/seed/<prop>/out/<k>/)
+# Confirms a seeded change independently: demo passes on HEAD, fails with the patch, the repo suite passes with the patch;
+# then runs the quick tier of the property's check and of the extra checks against it (thorough tier of all of them only if
+# every quick run is silent; NO_THOROUGH=1 skips that) and stores everything in /verif/seeded/<prop>-<k>/
 prop=$1; k=$2; src=/tmp/seed/$prop/out/$k
 dst=/verif/seeded/$prop-$k
 [ -f $src/patch.diff ] || { echo "no patch in $src"; exit 2; }
@@ -11,36 +12,44 @@ cd $wt
 PYTHONPATH=$wt /venv/bin/python $src/demo.py > /tmp/mut/demo_${prop}_$k.base 2>&1; rc_base=$?
 if ! git apply $src/patch.diff; then echo "$prop-$k PATCH DOES NOT APPLY"; cd /; git -C /repo worktree remove --force $wt; exit 3; fi
 PYTHONPATH=$wt /venv/bin/python $src/demo.py > /tmp/mut/demo_${prop}_$k.mut 2>&1; rc_mut=$?
-suite=$(PYTHONPATH=$wt /venv/bin/python -m pytest -q -p no:cacheprovider --timeout=900 autobean_refactor 2>&1 | tail -1)
+if [ "${SKIP_SUITE:-0}" = "1" ] && [ -f $dst/meta.json ]; then
+  suite=$(/venv/bin/python -c "import json;print(json.load(open('$dst/meta.json'))['confirmed']['repo_suite_with_patch'])")
+else
+  suite=$(PYTHONPATH=$wt /venv/bin/python -m pytest -q -p no:cacheprovider --timeout=900 autobean_refactor 2>&1 | tail -1)
+fi
 cd /verif
 checks="$prop ${3:-}"
 caught=""; detail=""
-for id in $checks; do
-  for tier in quick thorough; do
-    out=$(VERIF_OUT=/tmp/mut/out_${prop}_$k PYTHONPATH=$wt timeout 3000 /venv/bin/python -B check.py $id --tier $tier 2>&1); rc=$?
+for tier in quick thorough; do
+  for id in $checks; do
+    out=$(VERIF_OUT=/tmp/mut/out_${prop}_$k PYTHONPATH=$wt timeout 5000 /venv/bin/python -B check.py $id --tier $tier 2>&1); rc=$?
     nviol=$(echo "$out" | grep -c '^VIOLATION')
     if [ $rc -eq 1 ] && [ $nviol -gt 0 ]; then
-      caught="$caught $id:$tier"; detail="$detail | $id $tier: $(echo "$out" | grep 'finding' | head -1 | cut -c1-300)"; break
+      caught="$caught $id:$tier"; detail="$detail | $id $tier: $(echo "$out" | grep 'finding' | head -1 | cut -c1-300)"
+    else
+      detail="$detail | $id $tier: rc=$rc silent"
     fi
-    detail="$detail | $id $tier: rc=$rc silent"
   done
+  [ -n "$caught" ] && break
+  [ "${NO_THOROUGH:-0}" = "1" ] && break
 done
 git -C /repo worktree remove --force $wt; rm -rf /tmp/mut/out_${prop}_$k
 mkdir -p $dst; cp $src/patch.diff $src/demo.py $dst/; [ -f $src/notes.md ] && cp $src/notes.md $dst/
 /venv/bin/python - "$prop" "$k" "$rc_base" "$rc_mut" "$suite" "$caught" "$detail" <<'PY'
-import json, sys
+import json, os, sys
 prop, k, rb, rm, suite, caught, detail = sys.argv[1:8]
+d = f'/verif/seeded/{prop}-{k}'
 meta = {
   'breaks_property': prop,
-  'needs_to_manifest': open(f'/verif/seeded/{prop}-{k}/notes.md').read()[:1500] if __import__('os').path.exists(f'/verif/seeded/{prop}-{k}/notes.md') else '',
+  'needs_to_manifest': open(f'{d}/notes.md').read()[:1800] if os.path.exists(f'{d}/notes.md') else '',
   'confirmed': {
     'demo_exit_on_unmodified_tree': int(rb), 'demo_exit_with_patch': int(rm),
     'repo_suite_with_patch': suite,
-    'how': 'tools/confirm_seed.sh: scratch worktree of /repo HEAD, PYTHONPATH=<worktree>; demo run before/after git apply; full pytest run with the patch',
+    'how': 'tools/confirm_seed.sh: scratch worktree of /repo HEAD, PYTHONPATH=<worktree>; demo run before/after git apply; full pytest run with the patch; then /verif checks against the patched worktree',
   },
   'checks_run': detail.strip(' |'),
   'caught_by': caught.split(),
 }
-json.dump(meta, open(f'/verif/seeded/{prop}-{k}/meta.json', 'w'), indent=1)
-print(prop, k, 'demo', rb, '->', rm, '| suite:', suite, '| caught by:', caught or 'NOTHING')
+json.dump(meta, open(f'{d}/meta.json', 'w'), indent=1)
+print(prop, k, 'demo', rb, '->', rm, '| suite:', suite, '| caught by:', caught or 'NOTHING', '|', detail[:400] if not caught else '')
 PY
